@@ -246,6 +246,57 @@ pub fn guarded<T>(f: impl FnOnce() -> T) -> Caught<T> {
     }
 }
 
+// ---------------------------------------------------------------------------------------
+// watchdog: a case that runs for longer than VERIF_WATCHDOG_S seconds (default 900) - an endless loop
+// in the code under test reached in-process, or in the harness - ends the whole run with exit status 2
+// (inconclusive); it is never reported as a violation
+
+static WATCHED: std::sync::OnceLock<Mutex<BTreeMap<u64, (std::time::Instant, &'static str, String)>>> = std::sync::OnceLock::new();
+static WATCH_ID: std::sync::atomic::AtomicU64 = std::sync::atomic::AtomicU64::new(0);
+
+struct Watch(u64);
+
+impl Watch {
+    fn start(part: &'static str, describe: impl FnOnce() -> String) -> Watch {
+        let id = WATCH_ID.fetch_add(1, std::sync::atomic::Ordering::Relaxed);
+        // the description is only rendered for every 64th case (cheap enough, and a hang that
+        // reproduces is found again); others carry the part name only
+        let text = if id % 64 == 0 { describe().chars().take(1500).collect() } else { String::new() };
+        let map = WATCHED.get_or_init(|| {
+            std::thread::spawn(watchdog);
+            Mutex::new(BTreeMap::new())
+        });
+        map.lock().unwrap().insert(id, (std::time::Instant::now(), part, text));
+        Watch(id)
+    }
+}
+
+impl Drop for Watch {
+    fn drop(&mut self) {
+        if let Some(m) = WATCHED.get() {
+            m.lock().unwrap().remove(&self.0);
+        }
+    }
+}
+
+fn watchdog() {
+    let limit: u64 = std::env::var("VERIF_WATCHDOG_S").ok().and_then(|s| s.parse().ok()).unwrap_or(900);
+    loop {
+        std::thread::sleep(std::time::Duration::from_secs(5));
+        if let Some(m) = WATCHED.get() {
+            let stuck = m.lock().unwrap().values().find(|(t, _, _)| t.elapsed().as_secs() > limit).cloned();
+            if let Some((t, part, text)) = stuck {
+                eprintln!(
+                    "INCONCLUSIVE: watchdog: a case of part {part} has been running for {} s (an endless loop reached in-process or a hang of the harness); case: {}",
+                    t.elapsed().as_secs(),
+                    if text.is_empty() { "(not recorded)" } else { &text }
+                );
+                std::process::exit(2);
+            }
+        }
+    }
+}
+
 fn shard_seed(seed: u64, property: &str, part: &str, shard: usize) -> [u8; 32] {
     let mut h = Sha256::new();
     h.update(seed.to_le_bytes());
@@ -268,6 +319,7 @@ struct ShardResult {
 
 impl<C: Check> Campaign<C> {
     fn run_one(&self, case: &C::Case) -> Result<Outcome, String> {
+        let _watch = Watch::start(self.0.name(), || format!("{}", self.0.describe(case)));
         match guarded(|| self.0.run(case)) {
             Caught::Ok(o) => Ok(o),
             Caught::AnthemPanic { location, message } => Ok(Outcome::fail(
